@@ -283,7 +283,7 @@ BOUNDARY = ["1048575/1048576", "199999/200000", "131071/131072", "16383/16384"]
 
 def gen_episodic_near_one(rng, tier):
     """EPISODIC problems with a discount rate within about 1e-5 of 1: a stochastic corridor of 8-24 cells
-    ending in a terminal state (forward with probability p, else stay / slip back), dyadic per-step costs
+    ending in a terminal state (forward with probability p >= 1/2, else stay / slip back), dyadic per-step costs
     (sometimes of large magnitude).  Long horizons make the discounted optimum visibly different from the
     undiscounted one ((1-gamma)*H^2/2*|cost|).  Choices, where present, have LARGE gaps (a second action
     with the same row and a clearly worse cost) or are exact duplicates: no action-value gap lies inside
@@ -295,8 +295,10 @@ def gen_episodic_near_one(rng, tier):
     actions, trans, reward = [None] * n, {}, {}
     absorbing = [False] * L + [True]
     for s in range(L):
-        p = F(rng.randint(1, 7), 8)
-        back = s - 1 if (s > 0 and rng.random() < .3) else s
+        # expected horizon stays <= ~2.5 L steps (|V*| <= ~60 |cost|): the evaluation step is accurate there
+        # (much longer horizons run into the Gram-system conditioning recorded for continuing problems)
+        p = F(rng.randint(4, 7), 8)
+        back = s - 1 if (s > 0 and p >= F(3, 4) and rng.random() < .3) else s
         row = [[s + 1, p], [back, 1 - p]]
         c = cost * rng.choice([1, 1, 2]) if rng.random() < .2 else cost
         actions[s] = [0]
@@ -662,7 +664,7 @@ def search_failing(case, res, d):
                     why["signature"] = "C16:discounted:gamma-near-one:values-not-optimal"
                     why["class_rule"] = NEAR_ONE_RULE
                     why["reported_gain"] = [str(float(x)) for x in g]
-                elif max(abs(x) for x in g) > F(1, 10**6) * d["scale"]:
+                elif 1 - gam > F(1, 2**11) and max(abs(x) for x in g) > F(1, 10**6) * d["scale"]:
                     # a discounted evaluation system forces gain 0: a clearly non-zero reported gain means
                     # equations (gamma*P - I) g = 0 were dropped by independent_row_indices (np.isclose(det, 0)
                     # is scale dependent: the Gram determinant of several small rows falls below 1e-8)
@@ -748,10 +750,11 @@ def run(ctx):
             absorbing_decl = [bool(pc["mdp"]["absorbing"][s_]) for s_ in sl]
             detail = {"case": case, "step": j, "error": out["error"]}
             sig = "C16:raises:" + etype
-            if etype == "UnboundLocalError" and near_one_continuing(pc["mdp"], res.get("absorbing_vec", absorbing_decl)):
-                # same root cause as the gamma-near-one value errors: the noisy non-zero gain keeps the gain
-                # improvement step switching for all max_iterations; bias_q is never bound
-                sig = "C16:discounted:gamma-near-one:raises:UnboundLocalError"
+            if etype in ("UnboundLocalError", "LinAlgError") and near_one_continuing(pc["mdp"], res.get("absorbing_vec", absorbing_decl)):
+                # same root cause as the gamma-near-one value errors (numerically singular Gram system): either the
+                # solve raises LinAlgError, or the noisy non-zero gain keeps the gain improvement step switching
+                # for all max_iterations and bias_q is never bound (UnboundLocalError)
+                sig = "C16:discounted:gamma-near-one:raises:" + etype
                 detail["class_rule"] = NEAR_ONE_RULE
             ctx.violation(sig, detail, found=True)
             continue
